@@ -73,6 +73,8 @@ type Scenario struct {
 	Writers  []WriterSpec
 	Gates    []string      // call names that park a writer during Commit (default l2.Lock, l2.IsLocked, l2.DualLock)
 	SubGates []SubGate     // extra park points INSIDE a step of one writer (it then holds whatever it holds there)
+	SepVals  bool          // values in a separate segment (IsValueDataInNodeSegment=false, not actively persisted)
+	ValCache bool          // with SepVals: values also globally cached (IsValueDataGloballyCached)
 	Deadline time.Duration // per-writer context deadline for Commit (0 = none)
 	MaxTime  time.Duration // transaction maxTime (default 1 minute)
 }
@@ -105,6 +107,17 @@ type Run struct {
 	W   []*Writer
 }
 
+// ValMode names where the store keeps values: node | segment | segment+cache.
+func (sc Scenario) ValMode() string {
+	switch {
+	case sc.SepVals && sc.ValCache:
+		return "segment+cache"
+	case sc.SepVals:
+		return "segment"
+	}
+	return "node"
+}
+
 func val(v int) string { return fmt.Sprintf("v%d", v) }
 
 // NewRun creates the folder, the store (an empty store exists before any writer starts) and commits the setup.
@@ -129,7 +142,13 @@ func NewRun(ctx context.Context, sc Scenario) (*Run, error) {
 	if err := t.T.Begin(ctx); err != nil {
 		return nil, err
 	}
-	if _, err := txk.NewBtree[int, string](ctx, t, e.StoreOpts(StoreName, sc.Slot, true)); err != nil {
+	so := e.StoreOpts(StoreName, sc.Slot, true)
+	if sc.SepVals {
+		so.IsValueDataInNodeSegment = false
+		so.IsValueDataActivelyPersisted = false
+		so.IsValueDataGloballyCached = sc.ValCache
+	}
+	if _, err := txk.NewBtree[int, string](ctx, t, so); err != nil {
 		return nil, err
 	}
 	if err := t.T.Commit(ctx); err != nil {
@@ -411,6 +430,88 @@ func (r *Run) Dump() (int64, []string, error) {
 	var count int64
 	var items []string
 	err := r.Env.AsOtherProcess(func(o *txk.Env) error {
+		open := func() (*txk.Txn, btree.BtreeInterface[int, string], error) {
+			t, err := o.NewTxn(r.Ctx, sop.ForReading, time.Minute, nil)
+			if err != nil {
+				return nil, nil, err
+			}
+			if err := t.T.Begin(r.Ctx); err != nil {
+				return nil, nil, err
+			}
+			b, err := txk.OpenBtree[int, string](r.Ctx, t, StoreName)
+			if err != nil {
+				t.T.Rollback(r.Ctx)
+				return nil, nil, err
+			}
+			return t, b, nil
+		}
+		// pass 1: Count() and the keys of a First/Next scan
+		t, b, err := open()
+		if err != nil {
+			return err
+		}
+		count = b.Count()
+		var keys []int
+		ok, err := b.First(r.Ctx)
+		if err != nil {
+			t.T.Rollback(r.Ctx)
+			if strings.Contains(err.Error(), "can't retrieve root node") {
+				return nil
+			}
+			return err
+		}
+		for ok {
+			keys = append(keys, b.GetCurrentKey().Key)
+			if ok, err = b.Next(r.Ctx); err != nil {
+				t.T.Rollback(r.Ctx)
+				return err
+			}
+		}
+		t.T.Rollback(r.Ctx)
+		// pass 2: every key's VALUE. A value that cannot be read (its separate-segment blob is missing) ends the
+		// reading transaction, so the remaining keys are read by a new one; the item is reported as "k=!lost"
+		t, b = nil, nil
+		defer func() {
+			if t != nil {
+				t.T.Rollback(r.Ctx)
+			}
+		}()
+		for _, k := range keys {
+			if t == nil {
+				if t, b, err = open(); err != nil {
+					return err
+				}
+			}
+			found, ferr := b.Find(r.Ctx, k, false)
+			var v string
+			var verr error
+			if ferr == nil && found {
+				v, verr = b.GetCurrentValue(r.Ctx)
+			}
+			switch {
+			case ferr != nil || verr != nil:
+				items = append(items, fmt.Sprintf("%d=!lost", k))
+				t.T.Rollback(r.Ctx)
+				t, b = nil, nil
+			case !found:
+				items = append(items, fmt.Sprintf("%d=!notfound", k))
+			default:
+				items = append(items, fmt.Sprintf("%d=%s", k, v))
+			}
+		}
+		return nil
+	})
+	return count, items, err
+}
+
+// MaxRetry is phase1CommitMaxRetryCount compiled out of the repository under test.
+func MaxRetry() int { return common.VerifPhase1MaxRetry() }
+
+// ItemIDs is the set of item ids a cold reader finds in the store (a separate-segment value blob is stored under its
+// item's id).
+func (r *Run) ItemIDs() (map[sop.UUID]bool, error) {
+	ids := map[sop.UUID]bool{}
+	err := r.Env.AsOtherProcess(func(o *txk.Env) error {
 		t, err := o.NewTxn(r.Ctx, sop.ForReading, time.Minute, nil)
 		if err != nil {
 			return err
@@ -423,29 +524,17 @@ func (r *Run) Dump() (int64, []string, error) {
 		if err != nil {
 			return err
 		}
-		count = b.Count()
 		ok, err := b.First(r.Ctx)
 		if err != nil {
-			if strings.Contains(err.Error(), "can't retrieve root node") {
-				return nil
-			}
-			return err
+			return nil
 		}
 		for ok {
-			k := b.GetCurrentKey().Key
-			v, verr := b.GetCurrentValue(r.Ctx)
-			if verr != nil {
-				return verr
-			}
-			items = append(items, fmt.Sprintf("%d=%s", k, v))
+			ids[b.GetCurrentKey().ID] = true
 			if ok, err = b.Next(r.Ctx); err != nil {
 				return err
 			}
 		}
 		return nil
 	})
-	return count, items, err
+	return ids, err
 }
-
-// MaxRetry is phase1CommitMaxRetryCount compiled out of the repository under test.
-func MaxRetry() int { return common.VerifPhase1MaxRetry() }
